@@ -158,3 +158,18 @@ def elf_object(ctx, stream, cls, little, machine='EM_X86_64', e_type='ET_EXEC', 
     elf.stream = stream
     elf.stream_len = stream_length(stream)
     return elf
+
+
+def shdr(**kw):
+    """a COMPLETE section header (every field of Elf_Shdr present): harness objects built from a partial header would report a change
+    that merely looks at another field as a KeyError - by accident, and just as well for a correct change"""
+    h = dict(sh_name=0, sh_type='SHT_PROGBITS', sh_flags=0, sh_addr=0, sh_offset=0, sh_size=0, sh_link=0, sh_info=0, sh_addralign=1, sh_entsize=0)
+    h.update(kw)
+    return h
+
+
+def phdr(**kw):
+    """a COMPLETE program header; p_memsz defaults to 0 (legal for everything but PT_LOAD: the note segment of a core file)"""
+    h = dict(p_type='PT_NULL', p_flags=4, p_offset=0, p_vaddr=0, p_paddr=0, p_filesz=0, p_memsz=0, p_align=1)
+    h.update(kw)
+    return h
